@@ -90,7 +90,8 @@ def cases(tier, seed):
         for subset in itertools.combinations(range(len(three)), k):
             out.append({"kind": "adapter", "n": 3, "members": [[0, three[i]] for i in subset],
                         "permutate": False, "cse": True, "seed": seed, "tier": tier})
-    for n in ((3, 4) if tier == "quick" else (3, 4, 5)):
+    # (the permuted set of a five-body shape has 60-180 topologies: > 30 min for one adapter)
+    for n in (3, 4):
         for si in range(len(R.isobar_topologies(n))):
             out.append({"kind": "adapter", "n": n, "members": [[si, list(range(n))]],
                         "permutate": True, "cse": True, "seed": seed, "tier": tier})
